@@ -122,7 +122,7 @@ def toms748_scan(
         bounds_low /= 2
         lower_results = f_cached(bounds_low)
     upper_results = f_cached(bounds_up)
-    while np.any(np.asarray([upper_results[0]] + upper_results[1]) > level):
+    while np.any(np.asarray([upper_results[0]] + upper_results[1]) >= level):
         bounds_up *= 2
         upper_results = f_cached(bounds_up)
 
